@@ -963,49 +963,66 @@ def r01_5(cx):
 
 
 def r01_6(cx):
+    """FindIter::next on its path summaries: the match yielded is self.search()?, replaced by handle_overlapping_empty_match(m)?
+    exactly when it is empty; before Some(m) is returned the input restarts at m.end() and last_match_end = Some(m.end()) for
+    that same m; every other path returns None because one of the two calls returned None"""
     from acverif.rl import value_roots
+    from acverif.sym import summarize, canon, cstr
     b = cx.body("<automaton::FindIter<'a, 'h, A> as core::iter::Iterator>::next")
     self_input = lambda t: isinstance(t, tuple) and t[0] == 'f' and t[2] == 'input' and is_var(t[1], 'self')
-    rets = [(bi, si, b.rvalue_term(st['r'], 0, bi)) for bi, si, pl, st in b.stores() if si != 'term' and pl['l'] == 0 and not pl['pr']]
-    somes = [(bi, si, v[3]['0']) for bi, si, v in rets if is_agg(v, r'Option$', 'Some')]
-    other = [v for bi, si, v in rets if not is_agg(v, r'Option$', 'Some') and not is_agg(v, r'Option$', 'None')]
-    cx.report('R01.6', b, 'returns', len(somes) >= 1 and not other, 'returns are Some(m) or None (from ?)' if somes and not other else 'other return values %s' % [tstr(v, 60) for v in other])
-    hb = b.calls(r'FindIter::handle_overlapping_empty_match$')
-    srch = b.calls(r'FindIter::search$')
-    for n, (rb, rsi, M) in enumerate(somes):
-        # where the yielded match comes from
-        roots = value_roots(b, M, rb, rsi)
-        kinds = sorted({short(r[1]).rsplit('::', 1)[-1] if r[0] == 'call' else tstr(r, 40) for r in roots})
-        okm = kinds in (['handle_overlapping_empty_match', 'search'], ['search']) and len(hb) == 1
-        cx.report('R01.6', b, 'm-sources', okm, 'the yielded match is self.search()?, replaced by handle_overlapping_empty_match(m)? when empty' if okm else 'the yielded match comes from %s' % kinds, line_of(b, rb, rsi))
-        # restart: set_start(self.input, m.end()) and last_match_end = Some(m.end()) for the yielded m, on every path to the return
-        def is_end_of_M(x):
-            x = expand_vars(b, x)
-            return is_call(x, r'util::search::Match::end$') and peel(x[2][0]) == M
-        ss = [(bi, b.call_term(bi, t0)) for bi, t0 in b.calls(r'util::search::Input::set_start$')]
-        ss = [(bi, ct) for bi, ct in ss if self_input(peel(ct[2][0])) and is_end_of_M(ct[2][1])]
-        lme = [(bi, val) for bi, si, tt, val, st in b.field_stores() if tt[0] == 'f' and tt[2] == 'last_match_end' and is_var(tt[1], 'self')
-               and is_agg(val, r'Option$', 'Some') and is_end_of_M(val[3]['0'])]
-        okr = bool(ss) and bool(lme) and must_pass(b, [rb], [x[0] for x in ss]) and must_pass(b, [rb], [x[0] for x in lme])
-        # M is not redefined between these updates and the return
-        if okr and is_var(M):
-            for db, di, tm in var_defs_terms(b, M[2]):
-                if rb in b.reach_after(db) and any(db in b.reach_after(x[0]) for x in ss + lme):
-                    okr = False
-        cx.report('R01.6', b, 'restart', okr, 'every Some(m) is preceded by input.set_start(m.end()) and last_match_end = Some(m.end()) for that m' if okr else 'the iterator does not restart at m.end() / record last_match_end on every yielded match', line_of(b, rb, rsi))
-    # empty-match branch: the handler runs exactly when the found match is empty, with that match
-    okg = False
-    if len(hb) == 1:
-        ct = b.call_term(*hb[0])
-        F = peel(ct[2][1])
-        g = bool_gates(b, lambda x: is_call(x, r'util::search::Match::is_empty$') and peel(x[2][0]) == F)
-        okg = bool(g) and is_var(peel(ct[2][0]), 'self') and not reachable_without(b, [hb[0][0]], [e for x in g for e in x[2]])
-        froots = value_roots(b, F, hb[0][0])
-        okg = okg and all(is_call(r, r'FindIter::search$') for r in froots) and bool(froots)
-        # an empty match cannot be yielded without going through the handler
-        if okg and somes:
-            okg = all(must_pass(b, [rb for rb, _, _ in somes], [hb[0][0]], src=tg) for x in g for _, tg in x[2])
-    cx.report('R01.6', b, 'empty-guard', okg, 'handle_overlapping_empty_match(m) runs exactly when the match found by search() is empty, and an empty match is only yielded through it' if okg else 'the empty-match handler is not guarded by m.is_empty() of the found match (or can be bypassed)')
+    rows = [r for r in summarize(cx.facts, b) if r.end == 'return']
+    why_ret = why_src = why_restart = why_guard = None
+    nsome = 0
+    for r in rows:
+        ret = canon(r.ret) if r.ret is not None else None
+        S = [canon(c) for c in r.calls(r'FindIter::search$')]
+        H = [canon(c) for c in r.calls(r'FindIter::handle_overlapping_empty_match$')]
+        if len(S) != 1 or cstr(S[0][2][0]) != 'self':
+            why_src = why_src or 'a path does not call self.search() exactly once'
+            continue
+        m0 = cstr(('f', ('dc', S[0], 'Some'), '0'))
+
+        def outcome(call):
+            for c, v in r.conds:
+                cc = canon(c)
+                if cc[0] == 'discr' and cstr(cc[1]) == cstr(call):
+                    return 'some' if (v == 1 or (isinstance(v, tuple) and v[0] == 'not' and 0 in v[1])) else 'none'
+            return None
+        emp = None
+        for c, v in r.conds:
+            cc = canon(c)
+            if is_call(cc, r'util::search::Match::is_empty$') and cstr(cc[2][0]) == m0:
+                emp = v
+        if len(H) > 1 or (H and (cstr(H[0][2][0]) != 'self' or cstr(H[0][2][1]) != m0)):
+            why_guard = why_guard or 'handle_overlapping_empty_match is not called once with the match found by search()'
+            continue
+        if H and emp is not True:
+            why_guard = why_guard or 'handle_overlapping_empty_match runs for a match that was not tested to be empty'
+        if not H and outcome(S[0]) == 'some' and emp is not False:
+            why_guard = why_guard or 'an empty match can be yielded without going through handle_overlapping_empty_match'
+        if ret is not None and is_agg(ret, r'Option$', 'None'):
+            if not (outcome(S[0]) == 'none' or (H and outcome(H[0]) == 'none')):
+                why_ret = why_ret or 'None is returned although a match was found'
+            continue
+        if not (ret is not None and is_agg(ret, r'Option$', 'Some')):
+            why_ret = why_ret or 'a path returns %s' % (tstr(ret, 60) if ret else None)
+            continue
+        nsome += 1
+        M = cstr(ret[3]['0'])
+        want = cstr(('f', ('dc', H[0], 'Some'), '0')) if H else m0
+        if M != want or outcome(S[0]) != 'some' or (H and outcome(H[0]) != 'some'):
+            why_src = why_src or 'the yielded match is %s (expected self.search()?, replaced by handle_overlapping_empty_match(m)? when empty)' % M[:100]
+        ENDS = ('util::search::Match::end(%s)' % M, '%s.span.end' % M)
+        ss = [c for c in (canon(x) for x in r.calls(r'util::search::Input::set_start$')) if cstr(c[2][0]) == 'self.input']
+        lme = [canon(v) for pl, v in r.stores() if cstr(canon(pl)) == 'self.last_match_end']
+        if not (len(ss) == 1 and cstr(ss[0][2][1]) in ENDS and len(lme) == 1 and is_agg(lme[0], r'Option$', 'Some') and cstr(lme[0][3]['0']) in ENDS):
+            why_restart = why_restart or 'the iterator does not restart at m.end() of the match it yields (set_start %s, last_match_end %s)' % ([cstr(c[2][1])[:60] for c in ss], [cstr(v)[:60] for v in lme])
+    if nsome == 0:
+        why_ret = why_ret or 'no path yields a match'
+    cx.report('R01.6', b, 'returns', why_ret is None, 'returns are Some(m), or None because search() / the empty-match handler returned None' if why_ret is None else why_ret)
+    cx.report('R01.6', b, 'm-sources', why_src is None, 'the yielded match is self.search()?, replaced by handle_overlapping_empty_match(m)? when empty' if why_src is None else why_src)
+    cx.report('R01.6', b, 'restart', why_restart is None, 'every Some(m) is preceded by input.set_start(m.end()) and last_match_end = Some(m.end()) for that m' if why_restart is None else why_restart)
+    cx.report('R01.6', b, 'empty-guard', why_guard is None, 'handle_overlapping_empty_match(m) runs exactly when the match found by search() is empty, and an empty match is only yielded through it' if why_guard is None else why_guard)
     # other stores to last_match_end / other set_start calls are foreign
     h = cx.body("automaton::FindIter::<'a, 'h, A>::handle_overlapping_empty_match")
     b = h
